@@ -757,6 +757,8 @@ def correspond(ctx):
             direct_history(ctx, m, rng, solver)
         if not malformed and pi % 4 == 3:
             history_corr(ctx, m, rng, kinds)
+        if not malformed and pi % 3 == 2:
+            temp_history(ctx, m, rng, solver)
 
     pystr_validation(ctx, m, rng)
 
@@ -898,6 +900,118 @@ def direct_history(ctx, m, rng, solver):
                                                                           exprio.show_list(posted), rnd),
                                  is_state=False))
 
+
+def _node_ids(e, acc):
+    from cspuz.expr import Expr
+    if isinstance(e, Expr):
+        acc.add(id(e))
+        for x in getattr(e, "operands", []) or []:
+            _node_ids(x, acc)
+    return acc
+
+
+def temp_history(ctx, m, rng, solver):
+    """class 3, temporaries: one backend object; the trees of a round are built, posted, and then DROPPED by the
+    caller (this is what Solver.solve's refinement loop does with its temporary OR constraint); only their
+    printed form is kept for the model.  The next round's trees are built after the drop, retried a few times
+    until one of their nodes reuses the address of a dead node (CPython hands freed blocks to the next objects
+    of the same size), so that anything keyed by object identity across calls shows.  Every description is
+    compared with the model's description of everything posted so far."""
+    import gc
+    from cspuz.expr import BoolVar
+    from cspuz.solver import _get_backend_by_name
+    if len(solver.variables) > 12:
+        return
+    backend = rng.choice(BACKENDS)
+    cls = _get_backend_by_name(backend)
+    variables, _pool = renumbered(rng, solver)
+    del _pool
+    if len(set(v.id for v in variables)) != len(variables):
+        return
+    g = Gen(rng, [v for v in variables if isinstance(v, BoolVar)], [v for v in variables if not isinstance(v, BoolVar)])
+    keys = [rng.random() < 0.5 for _ in variables]
+    vtok = vars_tok(variables)
+    made = vlib.guarded(lambda: cls(list(variables)))
+    if made[0] != "ok":
+        return
+    b = made[1]
+    posts_txt = []   # ("L", "[ .. ]") | ("O", "( .. )") printed forms only
+    dead = set()
+    reused_any = False
+    for rnd in range(rng.choice([3, 4, 5])):
+        want = rng.choice([1, 1, 2])
+        new = None
+        for attempt in range(12 if dead else 1):
+            cand = [g.gbool(rng.choice([1, 1, 2])) for _ in range(want)]
+            ids = set()
+            for c in cand:
+                _node_ids(c, ids)
+            if not dead or (ids & dead):
+                new = cand
+                if dead:
+                    reused_any = True
+                    ctx.count("thist:id-reuse")
+                break
+            del cand
+        if new is None:
+            new = [g.gbool(1) for _ in range(want)]
+            ctx.count("thist:no-id-reuse")
+        as_list = rng.random() < 0.5
+        shown = [exprio.show(c) for c in new]
+        if as_list:
+            posts_txt.append(("L", "[ " + " ".join(shown) + " ]"))
+        else:
+            posts_txt += [("O", t) for t in shown]
+        deduction = rng.random() < 0.5
+        asg = gen_assignment(rng, variables)
+
+        def responder(i, text):
+            return java_reply(m, text, asg, []) or "s UNSATISFIABLE\n"
+
+        def go():
+            if as_list:
+                b.add_constraint(list(new))
+            else:
+                for c in new:
+                    b.add_constraint(c)
+            return b.solve_irrefutably(list(keys)) if deduction else b.solve()
+        with Fakes(responder) as fk:
+            with warnings.catch_warnings():
+                warnings.simplefilter("ignore")
+                out = vlib.guarded(go)
+        for c in new:
+            _node_ids(c, dead)
+        del new, go
+        gc.collect()
+        req = "HIST %s %s VARS %s K [%s ] P%s E" % (
+            backend, "D" if deduction else "A", vtok, "".join(" 1" if k else " 0" for k in keys),
+            "".join(" %s %s" % (t, x) for t, x in posts_txt))
+        r = parse_model_res(m.call(req))
+        md = ("ok", unhex(r[1][0])) if r[0] == "ok" else r
+        tag = (vtok, tuple(posts_txt), backend, deduction, rnd)
+        ctx.count("thist:round%d" % rnd)
+        if not fk.calls:
+            ctx.corr("thist-text-error", tag, md, out)
+            return
+        ctx.corr("thist-text", tag, md, ("ok", fk.calls[0][2]))
+        # material for search: the trees are gone, so they are rebuilt from their printed forms
+        flat_txt = []
+        for t, x in posts_txt:
+            if t == "O":
+                flat_txt.append(x)
+            else:
+                toks, depth, cur = x.split()[1:-1], 0, []
+                for tk in toks:
+                    cur.append(tk)
+                    depth += (tk == "(") - (tk == ")")
+                    if depth == 0:
+                        flat_txt.append(" ".join(cur))
+                        cur = []
+        ctx._c03.append(dict(variables=variables, keys=list(keys), cons=[exprio.parse(t) for t in flat_txt],
+                             backend=backend, deduction=deduction, text=fk.calls[0][2], asg=None, refuted=[],
+                             out=None, no_reply=True,
+                             tag="VARS %s K %s TEMPS %s round %d (trees dropped by the caller after each round)" % (
+                                 vtok, [int(k) for k in keys], " ; ".join(flat_txt), rnd), is_state=False))
 
 def direct_api(ctx, m, rng, solver):
     """SugarLikeBackend subclasses used directly: arbitrary variable lists (ids, order), add_constraint
@@ -1403,7 +1517,8 @@ def search(ctx):
         for rec in recs:
             if rec.get("is_state", True) != which:
                 continue
-            check_reply_property(ctx, rec)
+            if not rec.get("no_reply"):
+                check_reply_property(ctx, rec)
             key = (rec["tag"], rec["deduction"])
             if key in seen:
                 continue
